@@ -149,7 +149,7 @@ theorem ytk_structures :
      | some v, some prod, some nxt =>
         (prod.pat == ytkProductPat) && (nxt.pat == moduleStructure bsaI) && (nxt.site == bsaI.site) &&
         (nxt.off == bsaI.off) && (nxt.k == bsaI.k) && (v.site == prod.site) && (v.k == 4) && (prod.k == 4)
-     | _, _, _ => false) = true := by decide +kernel
+     | _, _, _ => false) = true := Tables.kits_ytk
 
 /-- what any fit of `YTKProduct.structure()` reads -/
 theorem ytk_product_layout {text : Word} {ms : List Nat} {e : Nat} (h : Run ytkProductPat text 0 ms e) :
